@@ -5,6 +5,7 @@ package filtering
 // C17 — local files are read as filter lists only when matching configured
 // safe patterns.
 //
+//vx:native
 //vx:overlay internal/filtering/zz_vx_c17.go
 //vx:callsites os.Open github.com/AdguardTeam/AdGuardHome/internal/filtering (*github.com/AdguardTeam/AdGuardHome/internal/filtering.DNSFilter).reader,(*github.com/AdguardTeam/AdGuardHome/internal/filtering.DNSFilter).load,github.com/AdguardTeam/AdGuardHome/internal/filtering/rulelist.parseIntoCache
 //vx:callsites os.OpenFile github.com/AdguardTeam/AdGuardHome/internal/filtering none
